@@ -538,6 +538,10 @@ def _stores_into_value(fn):
             base = t
             while isinstance(base, ast.Subscript):
                 base = base.value
+            if isinstance(base, ast.Name) and base is not t:
+                # a local alias of the frame (`df = self.value; df["value"] = …`) stores into the same object
+                from ..astutil import aliases
+                base = aliases(fn).get(base.id, base)
             if isinstance(base, ast.Attribute) and base.attr == "value" and isinstance(base.value, ast.Name) \
                     and base.value.id in params:
                 out.append((n, base.value.id))
